@@ -103,13 +103,39 @@ def run(ctx: Ctx) -> None:
     sp = sparam[0]
     want_arg = Normalizer().poly(ast.parse(f'{sp} if {sp} is not None else self._preconditioner.steps', mode='eval').body).canon()
     blocks = {}
-    for st in step.body:
-        if isinstance(st, ast.Expr) and isinstance(st.value, ast.Constant):
-            continue
+    for st in p.nodes(step):
         if isinstance(st, ast.If) and not st.orelse and _is_not_none_test(st.test):
             blocks[_is_not_none_test(st.test)] = st
-        else:
-            raise AnalysisIncomplete(f'LambdaParamScheduler.step: statement outside the per-parameter block form: {norm(st)[:80]}')
+    # state at the entry of every block, from a symbolic run of the whole function (prologue included)
+    entry: dict[str, symexec.Sym] = {}
+
+    def track0(t: ast.AST):  # noqa: ANN202
+        if isinstance(t, ast.Name):
+            return t.id
+        tx = norm(t)
+        return tx if tx.startswith('self._preconditioner.') else None
+
+    def assume0(s_, test, pol):  # noqa: ANN001, ANN202
+        nm = _is_not_none_test(test)
+        if nm and pol and nm not in entry:
+            entry[nm] = s_
+        return s_
+    cb0 = symexec.SymCB(lambda c: None, track0, None, assume0)
+    init_env0 = {f'self._preconditioner._{x}': Poly.atom(f'old_{x}') for x in names}
+    symexec.run(step, cb0, init_env0)
+    # every block runs unconditionally on every call of step()
+    for nme, blk in blocks.items():
+        gs = flow.guards(p, step, blk)
+        ctx.check(not gs, 'SIB-SCHED', step, f'block {nme} runs on every scheduler step', f'block {nme} guards',
+                  f'the block applying {nme}_lambda is skipped when {[g.text() for g in gs]}: every scheduler step must multiply every scheduled parameter', blk)
+    # no store to preconditioner fields outside the blocks
+    for n_ in p.nodes(step):
+        if isinstance(n_, (ast.Assign, ast.AugAssign)):
+            tg = n_.targets[0] if isinstance(n_, ast.Assign) else n_.target
+            if norm(tg).startswith('self._preconditioner.') and not any(b.lineno <= n_.lineno <= b.end_lineno for b in blocks.values()):
+                ctx.violate('SIB-SCHED', step, norm(n_)[:100], f'{norm(n_)[:90]} changes a preconditioner parameter outside a per-parameter block', n_)
+    phi = f'phi(self._preconditioner.steps|{sp})'
+    accepted_args = {want_arg, phi, f'ite({sp} is not None,{phi},self._preconditioner.steps)'}
     for lp in lam_params:
         n = lp[:-len('_lambda')]
         blk = blocks.get(n)
@@ -139,6 +165,10 @@ def run(ctx: Ctx) -> None:
         w = flow.Walker(cb)
         init_env = {f'self._preconditioner._{x}': Poly.atom(f'old_{x}') for x in names}
         s0 = symexec.Sym(tuple(sorted(init_env.items())), ())
+        if n in entry:
+            e0 = dict(entry[n].env)
+            e0.update(init_env)   # earlier blocks changed other parameters; each block is judged on its own old value
+            s0 = symexec.Sym(tuple(sorted(e0.items())), ())
         ex = w.block(blk.body, s0)
         s = ex.fall
         if s is None or ex.returns:
@@ -150,7 +180,7 @@ def run(ctx: Ctx) -> None:
         # argument of the lambda
         for c in [c for c in p.nodes(step) if isinstance(c, ast.Call) and blk.lineno <= c.lineno <= blk.end_lineno and classify(c)]:
             arg = cb.value(s0, c.args[0]).canon() if len(c.args) == 1 and not c.keywords else '?'
-            ctx.check(arg == want_arg, 'STEP-PREC', step, f'block {n}: factor evaluated at explicit-or-preconditioner step', norm(c),
+            ctx.check(arg in accepted_args, 'STEP-PREC', step, f'block {n}: factor evaluated at explicit-or-preconditioner step', norm(c),
                       f'block of {n} evaluates its factor function at {norm(c.args[0]) if c.args else "()"} instead of `{sp} if {sp} is not None else self._preconditioner.steps`', c)
         # stores
         mine = [x for x in stores if x[0] == f'self._preconditioner._{n}']
